@@ -136,6 +136,27 @@ func allocCases(seed int64, tier string) []allocCase {
 			add("deep-and-wide", "", t)
 		}
 	}
+	// 4c. combs: at every one of d levels a list of k small items and the next level (valid)
+	for _, dk := range [][2]int{{500, 10}, {2000, 3}, {300, 100}} {
+		for _, leaf := range [][]byte{{0xA5, 0x01, 0x07}, {0x41, 0x02, 0x61, 0x62}, {0x01, 0x00}} {
+			var build func(d int) []byte
+			build = func(d int) []byte {
+				n := dk[1]
+				if d > 0 {
+					n++
+				}
+				t := []byte{0x01, byte(n)}
+				for i := 0; i < dk[1]; i++ {
+					t = append(t, leaf...)
+				}
+				if d > 0 {
+					t = append(t, build(d-1)...)
+				}
+				return t
+			}
+			add("comb", "", build(dk[0]))
+		}
+	}
 	// 5. random bytes and random mutations of a valid message
 	for k := 0; k < 150; k++ {
 		n := r.Intn(200)
